@@ -49,6 +49,22 @@ class Lits:
                 return bytes.fromhex(k["bytes_hex"])
         return None
 
+    def u256(self, t):
+        """integer of a U256 literal: U256::from([l0..l3]) with literal limbs or with a `const [u64; 4]` item"""
+        v = literal_u256(t)
+        if v is not None:
+            return v
+        t = strip(t)
+        if t[0] == "call" and t[1].name in ("from", "into") and len(t[2]) == 1:
+            a = strip(t[2][0])
+            if a[0] == "const" and "uneval_def" in a[1] and "promoted" not in a[1]:
+                c = self.F.consts.get(a[1]["uneval_def"])
+                if c and c.get("ty", "").replace(" ", "") == "[u64;4]" and "bytes_hex" in c:
+                    b = bytes.fromhex(c["bytes_hex"])
+                    if len(b) == 32:
+                        return int.from_bytes(b, "little")      # limb 0 first, each limb little-endian in memory
+        return None
+
     def fq(self, t, depth=0):
         """Integer (mod q, canonical) denoted by a term built from literals; None if not a literal."""
         if depth > 10:
@@ -62,7 +78,7 @@ class Lits:
                 return self.fq(t[2][0], depth + 1)
             if fk.d.endswith("::new") and len(t[2]) == 1 and fk.d in {i["new"].rec["path"] for i in self.repo.fp_types().values()}:
                 st = self.repo.static_of(t[2][0])
-                v = self.repo.static_int(st) if st else literal_u256(t[2][0])
+                v = self.repo.static_int(st) if st else self.u256(t[2][0])
                 return v if v is not None and v < q else None
             if n == "from_str" and len(t[2]) == 1:
                 b = self.const_bytes(t[2][0])
